@@ -345,6 +345,8 @@ func c05(w *core.World, r *core.Report) {
 	ruleReaderLeft(w, r)
 	r.Rule("R08.1", "snapshot commit point (shared with C08): a snapshot becomes offerable only when every announced byte was written", 3)
 	ruleRdbCommit(w, r)
+	r.Rule("R05.12", "memory backend: a snapshot stays cached when its writer finishes only if every announced byte arrived (the commit point of the disk backend, R08.1, has a memory sibling)", 1)
+	ruleMemorySnapshotCommit(w, r)
 	r.Rule("R05.11", "one writer per log: the running writer is closed before its successor's file is created", 1)
 	ruleWriterReplacement(w, r)
 	r.Rule("R05.10", "snapshot and log stay joined under collection", 3)
@@ -1660,4 +1662,77 @@ func ruleWriterMarker(w *core.World, r *core.Report) {
 	if n == 0 {
 		r.Fail("marker-with-writer", token.NoPos, "no place marks a segment as being written")
 	}
+}
+
+
+// ---------------------------------------------------------------- R05.12 the memory snapshot's commit point
+
+// ruleMemorySnapshotCommit: the memory channel publishes a snapshot when its
+// transfer starts and drops it when the writer finishes with an error. A writer
+// that is merely closed (the input was stopped in the middle of the transfer)
+// finishes without one; the snapshot may then stay cached only if the number
+// of bytes received equals the announced size, otherwise GetRdb keeps offering
+// a snapshot that cannot be replayed to its end.
+func ruleMemorySnapshotCommit(w *core.World, r *core.Report) {
+	f := fn(w, r, "(*syncer.MemoryChannel).finishRdb")
+	if f == nil {
+		return
+	}
+	isSize := func(v ssa.Value) bool {
+		ld, ok := core.Unwrap(v).(*ssa.UnOp)
+		if !ok || ld.Op != token.MUL {
+			return false
+		}
+		fa, ok := ld.X.(*ssa.FieldAddr)
+		return ok && core.FieldName(fa) == "size" && strings.HasSuffix(core.TypeName(fa.X.Type()), "memoryRdb")
+	}
+	isRdbField := func(v ssa.Value) bool {
+		ld, ok := core.Unwrap(v).(*ssa.UnOp)
+		if !ok || ld.Op != token.MUL {
+			return false
+		}
+		fa, ok := ld.X.(*ssa.FieldAddr)
+		return ok && core.FieldName(fa) == "rdb"
+	}
+	bad := ""
+	var pos token.Pos = f.Pos()
+	kept, dropped := 0, 0
+	okEnum := core.EnumPathsN(f.Blocks[0], 0, 50000, core.Unroll, func(p *core.Path) {
+		if _, ok := p.End.(*ssa.Return); !ok || bad != "" {
+			return
+		}
+		for _, in := range p.Instrs {
+			if st, ok := in.(*ssa.Store); ok {
+				if fa, isFa := st.Addr.(*ssa.FieldAddr); isFa && core.FieldName(fa) == "rdb" && strings.HasSuffix(core.TypeName(fa.X.Type()), "MemoryChannel") && core.IsNilConst(st.Val) {
+					dropped++
+					return
+				}
+			}
+		}
+		// the snapshot stays: somebody else's (channel.rdb != writer.rdb), or complete
+		complete, foreign := false, false
+		for _, fct := range p.Conds {
+			c, ok := core.FactCmp(fct)
+			if !ok {
+				continue
+			}
+			x, y := p.Resolve(c.X), p.Resolve(c.Y)
+			if c.Op == token.EQL && (isSize(x) || isSize(y)) {
+				complete = true
+			}
+			if c.Op == token.NEQ && isRdbField(x) && isRdbField(y) {
+				foreign = true
+			}
+		}
+		if complete || foreign {
+			kept++
+			return
+		}
+		bad, pos = "a snapshot stays cached after its writer finished on a path that did not establish that every announced byte arrived: a transfer stopped in the middle (writer closed without an error) leaves a snapshot that GetRdb offers although it cannot be replayed to its end", p.End.Pos()
+	})
+	if !okEnum {
+		r.Undecided("MemoryChannel.finishRdb/keeps-only-complete", f.Pos(), "too many paths")
+		return
+	}
+	r.Check(bad == "" && kept > 0 && dropped > 0, "MemoryChannel.finishRdb/keeps-only-complete", pos, "%s (keeping paths=%d, dropping paths=%d)", bad, kept, dropped)
 }
